@@ -5,7 +5,7 @@ SPEC = {
                    "2": "ConvertVersionedSchemas FieldInfo.Services per (type, field)",
                    "3": "graphql.PrepareQuery verdict of each version's built schema on each generated query"},
     "corr_name": "Federation.Merge (merge_all, field_services, valid_query) vs federation.MergeIntrospectionSchemas / ConvertVersionedSchemas / graphql.PrepareQuery",
-    "coq_modules": ["Federation.Merge", "Federation.MergeProofsMore"],
+    "coq_modules": ["Federation.Merge"],
     "trusted_base": [
         "Coq 8.16.1 kernel and vm_compute (no native_compute); Print Assumptions: closed under the global context",
         "hand-written model coq/theories/Federation/Merge.v of federation/merge_schemas.go and schema.go:173-227, tied to the code by the correspondence check only",
@@ -18,7 +18,7 @@ SPEC = {
         "a scalar is identified by its name: the same values are acceptable for it in every version",
     ],
     "manifest": {
-        "text": "Coq theorems (Props/C09.v) over an executable model of mergeTypeRefs / mergeInputFields / mergeFields / mergeTypes / mergeSchemas / mergeSchemaSlice / processSchemaVersions: soundness of the version intersection for every query, the n-ary nullability lattice, commutativity, closure, completeness of the service union. On every run the model is evaluated against MergeIntrospectionSchemas and ConvertVersionedSchemas on generated services x versions (raw introspection terms and schemas really built with schemabuilder), and the property is evaluated directly on the implementation: queries walked out of the merged schema must pass graphql.PrepareQuery on every version of the serving service; renaming/reordering services and versions must not change the outcome; the nullability rule and closure are read off the output.",
+        "text": "Coq theorems (Props/C09.v) over an executable model of mergeTypeRefs / mergeInputFields / mergeFields / mergeTypes / mergeSchemas / mergeSchemaSlice / processSchemaVersions: soundness of the version intersection for every query and any number of versions, the n-ary nullability lattice, commutativity and closure of mergeSchemas, completeness of the service union, and refutations (with witnesses replayed on the code) of the two known findings. On every run the model is evaluated against MergeIntrospectionSchemas and ConvertVersionedSchemas on generated services x versions (raw introspection terms and schemas really built with schemabuilder), and the property is evaluated directly on the implementation: queries walked out of the merged schema must pass graphql.PrepareQuery on every version of the serving service; renaming/reordering services and versions must not change the outcome; the nullability rule and closure are read off the output.",
         "note": "Trusted: Coq kernel + vm_compute; the hand-written model (tied to the code only by the correspondence check); the Go harness. Known findings (open): a union of services keeps optional arguments, enum values and input-object fields that only one of the services serving a field knows; whether an incompatible set of three or more versions is rejected depends on how the versions are named.",
         "technique": "Coq proof over executable model + differential correspondence check (vm_compute) + property oracle on implementation outputs",
     },
